@@ -144,7 +144,7 @@ def _canon(a, sort_containers):
 
     t = a[0]
     if t == "ref":
-        return "ref<%r>" % (a[1],)
+        return "%s<%r>" % ("alias" if len(a) > 2 and a[2] == "alias" else "ref", a[1])
     if t == "lit":
         return "lit<%s>" % canon(a[1])
     if t == "q":
@@ -153,7 +153,8 @@ def _canon(a, sort_containers):
         xs = [_canon(x, sort_containers) for x in a[1]]
         return t + "[" + ",".join(sorted(xs) if sort_containers else xs) + "]"
     if t == "set":
-        return "set[" + ",".join(sorted(_canon(x, sort_containers) for x in a[2])) + "]"
+        xs = [_canon(x, sort_containers) for x in a[2]]
+        return "set[" + ",".join(sorted(xs) if sort_containers else xs) + "]"
     if t == "dict":
         if sort_containers:
             xs = []
@@ -161,7 +162,7 @@ def _canon(a, sort_containers):
                 xs.append("lit<%s>" % canon(k))
                 xs.append(_canon(v, True))
             return "dict[" + ",".join(sorted(xs)) + "]"
-        return "dict[" + ",".join(sorted("%s=>%s" % (canon(k), _canon(v, False)) for k, v in a[1])) + "]"
+        return "dict[" + ",".join("%s=>%s" % (canon(k), _canon(v, False)) for k, v in a[1]) + "]"
     if t == "call":
         return "%s(%s)" % (a[1], ",".join(_canon(x, sort_containers) for x in a[2]))
     if t == "kwcall":
@@ -588,6 +589,9 @@ def run_case(case, ctx):
         except TypeError:
             heq = None
         meaning_kept = name in ("identical-rebuild", "key-change", "copy", "pickle", "cloudpickle")
+        order_only = not meaning_kept and _canon(base, True) == _canon(t2, True)
+        if order_only:
+            ctx.count("pairs_differing_by_container_order_or_pairing_only")
         if meaning_kept:
             ctx.count("identical_pairs")
             if eq and teq:
@@ -625,7 +629,7 @@ def run_case(case, ctx):
             continue
         i = bad[0]
         how = "+".join(x for x, y in (("==", eq or eq2), ("same-token", teq), ("same-hash", bool(heq))) if y)
-        if not meaning_kept and _canon(base, True) == _canon(t2, True):
+        if order_only:
             label = LABEL_ORDER
         else:
             label = "%s:%s:equal-or-same-token-but-different-values" % (name, type(a).__name__ if type(a) is type(b) else "mixed-classes")
